@@ -1165,7 +1165,9 @@ impl Gen {
 
 /// Class `pipefull`: readiness (`select` with a zero timeout) of a pipe that is filled to capacity, before
 /// and after its read end goes away.  Structured, because `fill`/`sel` need to know which descriptor is
-/// which end: 3/4 are the first pipe (and 5/6 a second one, or 5 a duplicate).
+/// which end: 3/4 are the first pipe, 5 possibly a duplicate of one end.  A descriptor is only ever
+/// selected for the direction it is open for (select for reading on a write-only descriptor is "ready"
+/// on the simulator and not on Linux — outside what the shell does, see notes/C19.md).
 fn gen_pipefull(rng: &mut Rng) -> String {
     let mut ops: Vec<String> = vec!["pipe".into()];
     if rng.chance(1, 2) {
@@ -1207,11 +1209,13 @@ fn gen_pipefull(rng: &mut Rng) -> String {
     match rng.below(3) {
         0 => {
             // a second pipe: the writer goes away, the reader sees data then end-of-file
+            // descriptor 3 is free again (and 5 unless it duplicates the first write end)
+            let w2 = if dup_writer { 6 } else { 5 };
             ops.push("pipe".into());
-            ops.push("fill 6".into());
-            ops.push("close 6".into());
-            ops.push("sel 5 r".into());
-            ops.push("read 5 3".into());
+            ops.push(format!("fill {w2}"));
+            ops.push(format!("close {w2}"));
+            ops.push("sel 3 r".into());
+            ops.push("read 3 3".into());
         }
         1 => {
             ops.push("open f1 rw - 0".into());
@@ -2247,7 +2251,7 @@ const FRAGMENTS: [(&str, &str); 86] = [
     ("clean", "v%=0123456789abcdef; v%=$v%$v%$v%$v%$v%$v%$v%$v%; v%=$v%$v%$v%$v%$v%$v%$v%$v%; v%=$v%$v%; typeset -p v% | alias; s=$?; typeset -p s; x%=after; typeset -p x%"),
     ("clean", "v%=0123456789abcdef; v%=$v%$v%$v%$v%$v%$v%$v%$v%; v%=$v%$v%$v%$v%$v%$v%$v%$v%; v%=$v%$v%; { typeset -p v%; typeset -p v%; typeset -p v%; } | { read -r l; n=${#l}; typeset -p n; }; s=$?; typeset -p s"),
     ("clean", "v%=0123456789abcdef; v%=$v%$v%$v%$v%$v%$v%$v%$v%; v%=$v%$v%$v%$v%$v%$v%$v%$v%; v%=$v%$v%; typeset -p v% | (exit 3); s=$?; typeset -p s; typeset -p v% | { read -r a; } ; typeset -p v% | alias | alias; s=$?; typeset -p s"),
-    ("clean", "v%=0123456789abcdef; v%=$v%$v%$v%$v%$v%$v%$v%$v%; v%=$v%$v%$v%$v%$v%$v%$v%$v%; v%=$v%$v%; { typeset -p v%; typeset -p PWD >side%; } 2>/dev/null | alias; s=$?; typeset -p s; y%=$(typeset -p v% | alias; typeset -p s); typeset -p y%"),
+    ("clean", "v%=0123456789abcdef; v%=$v%$v%$v%$v%$v%$v%$v%$v%; v%=$v%$v%$v%$v%$v%$v%$v%$v%; v%=$v%$v%; y%=$(typeset -p v% | alias; s=$?; typeset -p s); typeset -p y%; (typeset -p v% | alias; exit 6); s=$?; typeset -p s"),
 ];
 
 fn gen_script(rng: &mut Rng, allow_known: bool) -> (String, String) {
